@@ -104,6 +104,7 @@ type interpreter struct {
 	lenient          int // >0 while running initialisers of packages outside the allow-list
 	hostCounters     map[string]int64
 	fpMemo           map[*term]bool
+	noFork           bool
 }
 
 type deferred struct {
@@ -661,6 +662,9 @@ func runFrame(fr *frame) {
 		if p.steps > p.maxSteps {
 			fr.i.abortReason = "steps"
 			panic(pathAbort{"steps"})
+		}
+		if sc := fr.i.sched; sc.quantum > 0 && p.steps >= sc.sliceEnd {
+			sc.preempt()
 		}
 		for _, instr := range nonPhis {
 			if fr.i.mode&EnableTracing != 0 {
